@@ -199,6 +199,77 @@ def tried(t):
     return None
 
 
+def _const_usize(t):
+    t = strip_wrappers(t)
+    if t[0] == "c" and isinstance(t[2], int) and not isinstance(t[2], bool):
+        return t[2]
+    return None
+
+
+def _len_minus(t, base):
+    """t == len(base) - c  ->  c ; t == len(base) -> 0 ; else None"""
+    t = strip_wrappers(t)
+    def is_len(x):
+        x = strip_wrappers(x)
+        if x[0] == "len":
+            return _same(strip_wrappers(x[1]), base)
+        return x[0] == "call" and name_is(x[2], "len") and x[3] and _same(strip_wrappers(x[3][0]), base)
+    if is_len(t):
+        return 0
+    if t[0] == "bin" and t[1] == "Sub" and is_len(t[2]):
+        return _const_usize(t[3])
+    return None
+
+
+def _same(a, b):
+    import re
+    if a == b:
+        return True
+    n = lambda t: re.sub(r"[*&() ]", "", sym.show(t))
+    return n(a) == n(b)
+
+
+def slice_norm(t):
+    """Normal form of a byte-slice expression built by constant cuts of another slice:
+    -> (base, front, back, tested) meaning base[front .. len(base) - back]; `tested` is the set of ('prefix'|'suffix',
+    literal) facts the expression itself establishes (payloads of strip_prefix / strip_suffix).  Spellings covered:
+    &b[a..len-c], &b[a..], &b[..len-c], b.get(range)?, b.strip_prefix(lit)?, b.strip_suffix(lit)?, and nestings.
+    Returns (t, 0, 0, set()) for anything else (a base)."""
+    t = strip_wrappers(t)
+    while t[0] == "call" and name_is(t[2], "deref", "as_ref", "borrow") and t[3]:
+        t = strip_wrappers(t[3][0])
+    inner = None
+    rng = None
+    if t[0] == "call" and name_is(t[2], "index") and len(t[3]) == 2 and t[3][1][0] == "agg":
+        inner, rng = t[3][0], t[3][1]
+    elif t[0] == "pl":
+        x = tried(t)
+        if x is not None and x[0] == "call" and len(x[3]) == 2:
+            if name_is(x[2], "get") and x[3][1][0] == "agg":
+                inner, rng = x[3][0], x[3][1]
+            elif name_is(x[2], "strip_prefix", "strip_suffix"):
+                lit = bytes_literal(x[3][1])
+                if lit is not None:
+                    b, f, k, ts = slice_norm(x[3][0])
+                    if name_is(x[2], "strip_prefix"):
+                        return (b, f + len(lit), k, ts | {("prefix", lit, f)})
+                    return (b, f, k + len(lit), ts | {("suffix", lit, k)})
+    if inner is None:
+        return (t, 0, 0, frozenset())
+    b, f, k, ts = slice_norm(inner)
+    cur = strip_wrappers(inner)
+    while cur[0] == "call" and name_is(cur[2], "deref", "as_ref", "borrow") and cur[3]:
+        cur = strip_wrappers(cur[3][0])
+    kind = rng[2]
+    if kind == "RangeFull":
+        return (b, f, k, ts)
+    lo = _const_usize(rng[3][0]) if kind in ("Range", "RangeFrom") else 0
+    hi = _len_minus(rng[3][-1], cur) if kind in ("Range", "RangeTo") else 0
+    if lo is None or hi is None:
+        return (t, 0, 0, frozenset())
+    return (b, f + lo, k + hi, ts)
+
+
 def returns_none(body, path):
     """agg None, or `?` on an Option in a function that returns Option"""
     r = ret_of(path)
